@@ -205,7 +205,17 @@ fn expected(m: &Model, kind: Kind, set: &str, id: &str) -> Found {
             }
             None
         }
-        Kind::Sub => None,
+        Kind::Sub => {
+            if let Some(i) = m.subs.iter().position(|x| x == id) {
+                return Some((i, Some(id.to_string())));
+            }
+            if let Some((l, n)) = temp {
+                if l == kind.letter() && n < m.subs.len() {
+                    return Some((n, Some(m.subs[n].clone())));
+                }
+            }
+            None
+        }
     }
 }
 
@@ -438,7 +448,7 @@ impl Oracle for C03 {
 // ---------------------------------------------------------------------------------------------
 // (2) exhaustive strings
 
-const SYMBOLS: [char; 12] = ['!', 'A', 'R', 'X', 'a', '\u{c9}', '\u{ff21}', '\u{df}', '0', '9', '-', ' '];
+const SYMBOLS: [char; 14] = ['!', 'A', 'R', 'S', 'I', 'X', 'a', '\u{c9}', '\u{ff21}', '\u{df}', '0', '9', '-', ' '];
 
 fn fixed_history() -> Vec<Op> {
     let d = |k: &str, v: &str, id: Option<&str>| DataT::New { set: "s0".into(), key: k.into(), val: Val::S(v.into()), id: id.map(|s| s.to_string()) };
@@ -479,9 +489,14 @@ fn strings_upto(maxlen: usize) -> Vec<String> {
 
 fn run_strings(rep: &Reporter, maxlen: usize) -> (u64, u64) {
     let hist = fixed_history();
-    let (store, outs) = replay_real(&hist);
+    let (mut store, outs) = replay_real(&hist);
     assert!(outs.iter().all(|o| o.is_ok()), "fixed history must build: {:?}", outs);
-    let model = replay_model(&hist);
+    let mut model = replay_model(&hist);
+    // two sub-stores whose ids are also the id of a key ("X") and of a data item ("9") of the fixed store
+    for id in ["X", "9"] {
+        store.add_new_substore(id, &format!("{}.store.stam.json", id)).expect("fixed store: add_new_substore");
+        model.subs.push(id.to_string());
+    }
     let strings = strings_upto(maxlen);
     let n = AtomicU64::new(0);
     strings.par_iter().enumerate().for_each(|(i, s)| {
@@ -765,7 +780,7 @@ pub fn run(rep: &Reporter) -> Coverage {
     cov.extra.insert("lookups_in_history_states".into(), json!(hl));
     cov.evaluations = hl + nlookups + nobs;
     cov.traces_validated = cov.transitions;
-    cov.rule = "history part: every history of valid operations up to the depth (as C01) and in every new state (a) every id that ever existed, fixed never-used ids and every temporary id !<letter><n> looked up as every kind through the accessor and resolve_* functions, (b) probes: duplicate-id insertion, reindex(), strip_annotation_ids(), strip_data_ids() followed by the same lookups; string part: every string up to max_length over the 12-symbol alphabet plus a menu of digit strings, looked up as every kind in a fixed store with a removed annotation; compaction sweep: for rows of 1..max_row_length annotations / resources / datasets / keys, every subset of the row removed, then reindex(): what every id of the row resolves to (annotation, resource, dataset, key, data item: the item carrying that id, or nothing for a removed one) must be the same before and after compaction; non-trivial = states with a removed and a live annotation".into();
+    cov.rule = "history part: every history of valid operations up to the depth (as C01) and in every new state (a) every id that ever existed, fixed never-used ids and every temporary id !<letter><n> looked up as every kind through the accessor and resolve_* functions, (b) probes: duplicate-id insertion, reindex(), strip_annotation_ids(), strip_data_ids() followed by the same lookups; string part: every string up to max_length over the 14-symbol alphabet plus a menu of digit strings, looked up as every kind (annotation, resource, dataset, key, data item, sub-store) in a fixed store with a removed annotation and two sub-stores whose ids are also ids of a key and of a data item; compaction sweep: for rows of 1..max_row_length annotations / resources / datasets / keys, every subset of the row removed, then reindex(): what every id of the row resolves to (annotation, resource, dataset, key, data item: the item carrying that id, or nothing for a removed one) must be the same before and after compaction; non-trivial = states with a removed and a live annotation".into();
     cov.assumptions = vec![
         "a temporary id is '!' + the kind's letter + a decimal handle; anything else is an ordinary (unknown) id".into(),
         "after reindex() only ids are compared (handles are renumbered by design)".into(),
